@@ -341,9 +341,12 @@ class Env:
         self.flavor = flavor
         self.in_bits = [o["name"] for o in spec["inputs"] if o["kind"] == "bit"]
         self.in_vecs = [o["name"] for o in spec["inputs"] if o["kind"] == "u"]
-        objs = spec["outputs"] + spec.get("sigs", [])
+        objs = spec["outputs"] + [o for o in spec.get("sigs", []) if not o.get("mid")]
         self.sig_bits = [o["name"] for o in objs if o["kind"] == "bit"]
         self.sig_vecs = [o["name"] for o in objs if o["kind"] == "u"]
+        # signals of a combinational process that the generated body only reads (design() assigns them itself)
+        self.ro_bits = [o["name"] for o in spec.get("sigs", []) if o.get("mid") and o["kind"] == "bit"]
+        self.ro_vecs = [o["name"] for o in spec.get("sigs", []) if o.get("mid") and o["kind"] == "u"]
         self.push = [o["name"] for o in objs if o.get("push")]
         self.var_bits = [o["name"] for o in spec.get("vars", []) if o["kind"] == "bit"]
         self.var_vecs = [o["name"] for o in spec.get("vars", []) if o["kind"] == "u"]
@@ -365,6 +368,7 @@ class Env:
         c.sig_vecs, c.sig_bits, c.var_vecs, c.var_bits, c.loc_vecs, c.loc_bits = [], [], [], [], [], []
         c.loc_bools = []
         c.var_bools = []
+        c.ro_bits, c.ro_vecs = [], []
         c.readable_sigs = False
         return c
 
@@ -381,6 +385,8 @@ def bit_leaf(env):
     opts = [st.sampled_from(env.in_bits).map(lambda n: ["in", n])] if env.in_bits else []
     if env.readable_sigs and env.sig_bits:
         opts.append(st.sampled_from([n for n in env.sig_bits]).map(lambda n: ["sig", n]))
+    if env.ro_bits:
+        opts.append(st.sampled_from(env.ro_bits).map(lambda n: ["sig", n]))
     if env.var_bits:
         opts.append(st.sampled_from(env.var_bits).map(lambda n: ["var", n]))
     if env.loc_bits:
@@ -419,6 +425,8 @@ def _nonconst_vec_opts(env):
         opts += [st.sampled_from(env.in_vecs).map(lambda n: ["in", n])] * 2
     if env.readable_sigs and env.sig_vecs:
         opts.append(st.sampled_from(env.sig_vecs).map(lambda n: ["sig", n]))
+    if env.ro_vecs:
+        opts += [st.sampled_from(env.ro_vecs).map(lambda n: ["sig", n])] * 2
     if env.var_vecs:
         opts.append(st.sampled_from(env.var_vecs).map(lambda n: ["var", n]))
     if env.loc_vecs:
@@ -854,6 +862,12 @@ def design(draw, flavor, reset=None, max_stmts=5, depth=2):
         for i in range(draw(st.integers(0, 2))):
             kind = draw(st.sampled_from(["u", "u", "bit"]))
             sigs.append({"name": f"g{kind[0]}{i}", "kind": kind, "default": draw(dflt(kind, False))})
+    if flavor == "comb":
+        # signals the body only reads; design() assigns each exactly once from the inputs, before or *after* the reads
+        # (the process then has to run again when they change: they must be in its sensitivity list)
+        for i in range(draw(st.sampled_from([0, 1, 1, 2]))):
+            kind = draw(st.sampled_from(["u", "u", "bit"]))
+            sigs.append({"name": f"gm{i}", "kind": kind, "default": draw(dflt(kind, False)), "mid": True})
     if flavor in ("seq", "coro"):
         # (a combinational process runs an unspecified number of times per input change: persistent
         # variables and reads of its own outputs would make it depend on that number)
@@ -909,7 +923,11 @@ def design(draw, flavor, reset=None, max_stmts=5, depth=2):
             # after initialisation with undefined inputs is not determined by the property)
             pre = [{"k": "assign", "t": {"name": o["name"]},
                     "e": draw(source_for(Env(spec, "comb"), o["kind"], W if o["kind"] == "u" else 1))} for o in outputs]
-            spec["body"] = pre + spec["body"]
+            ienv = Env(spec, "comb").inputs_only()
+            mids = [{"k": draw(st.sampled_from(["assign", "next"])), "t": {"name": o["name"]},
+                     "e": draw(source_for(ienv, o["kind"], W if o["kind"] == "u" else 1))} for o in sigs if o.get("mid")]
+            first = [m for m in mids if draw(st.integers(0, 2)) == 0]
+            spec["body"] = first + pre + spec["body"] + [m for m in mids if m not in first]
     return spec
 
 
